@@ -20,7 +20,7 @@ inductive Op where
   | cancel (q : Nat)
   | msg (p : Nat) (haves dontHaves : List Nat) (blocks : List (Nat × Nat))
         (wantlist : Option (Bool × List Server.Entry))   -- `IncomingMessage`
-  | sending (p : Nat) (st : Sending)    -- `SendingStateChanged`
+  | sending (p src : Nat) (st : Sending)  -- `SendingStateChanged` reported by the handler of connection `src`
   | newBlocks (bs : List (Nat × Nat))   -- `NewBlocksAvailable`
   | complete (seq : Nat) (r : StoreRes)
   | tick (ms : Nat)
@@ -49,7 +49,7 @@ def step (s : State) : Op → State × List Out × Option Nat
     (match w with
      | some (full, es) => { s with server := Server.incoming s.server p full es }
      | none => s, [], none)
-  | .sending p st => ({ s with client := Client.sendingChanged s.client p st }, [], none)
+  | .sending p src st => ({ s with client := Client.sendingChanged s.client p src st }, [], none)
   | .newBlocks bs => ({ s with server := Server.newBlocks s.server bs }, [], none)
   | .complete seq r =>
     match Client.complete s.client seq r with
